@@ -5,12 +5,14 @@ import (
 	"go/types"
 	"sort"
 	"strings"
+
+	"golang.org/x/tools/go/ssa"
 )
 
 func init() {
 	register(&Rule{
 		Name:     "TYPESWITCHAGREE",
-		Doc:      "sibling type switches that box unhashable Go values used as map keys (every type switch whose cases include both map[string]interface{} and []interface{}) list the same set of unhashable types: a kind that one decoder can produce (e.g. map[thrift.FieldID]interface{} under MapStructById) and a sibling forgets falls into `default: ret[kv] = …` and panics with `hash of unhashable type`",
+		Doc:      "sibling type switches that box unhashable Go values used as map keys (every type switch whose cases include both map[string]interface{} and []interface{}) list the same set of unhashable types, and (b) list every unhashable (slice / map) dynamic type that the function producing the key can box into its interface{} result (computed over the SSA of the producer and the callees whose results it returns; []byte — a STRING value under binary casting — is not demanded of a switch that lies in the else-arm of a `key type == STRING` test): a kind that one decoder can produce (e.g. map[thrift.FieldID]interface{} under MapStructById) and a sibling forgets falls into `default: ret[kv] = …` and panics with `hash of unhashable type`",
 		Configs:  "NP",
 		Floor:    map[string]int{"N": 2, "P": 2},
 		Controls: 1,
@@ -28,9 +30,11 @@ func init() {
 func runTypeSwitchAgree(rc *RuleCtx) {
 	w := rc.W
 	type tsw struct {
-		fn    string
-		pos   ast.Node
-		types map[string]bool
+		fn       string
+		pos      ast.Node
+		types    map[string]bool
+		producer *ssa.Function // the function whose interface{} result the switch dispatches on (nil if unknown)
+		noString bool          // the switch is in the else-arm of a key-type test for STRING: no STRING key (hence no []byte) reaches it
 	}
 	var sws []tsw
 	for _, p := range w.Pkgs {
@@ -73,7 +77,7 @@ func runTypeSwitchAgree(rc *RuleCtx) {
 						}
 					}
 					if set["map[string]interface{}"] && set["[]interface{}"] {
-						sws = append(sws, tsw{declName(rel, fd), ts, set})
+						sws = append(sws, tsw{declName(rel, fd), ts, set, switchProducer(w, p.TypesInfo, fd, ts), inElseOfStringTest(fd, ts)})
 					}
 					return true
 				})
@@ -103,6 +107,9 @@ func runTypeSwitchAgree(rc *RuleCtx) {
 		union := unions[family(s.fn)]
 		var missing []string
 		for t := range union {
+			if t == "[]byte" && s.noString {
+				continue // string keys are handled by a dedicated arm before this switch
+			}
 			if !s.types[t] {
 				missing = append(missing, t)
 			}
@@ -111,6 +118,152 @@ func runTypeSwitchAgree(rc *RuleCtx) {
 		good := len(missing) == 0
 		rc.add(nil, s.fn, "unhashable-key type switch", s.pos.Pos(), map[bool]string{true: "discharged", false: "violated"}[good],
 			map[bool]string{true: "covers every unhashable key type its siblings handle", false: "sibling type switches also handle " + strings.Join(missing, ", ") + "; here such a key reaches the default branch and is used as a map key directly (panic: unhashable)"}[good], true)
+		// clause (b): against the PRODUCER of the key, not only against the siblings
+		if s.producer == nil {
+			continue
+		}
+		prod := map[string]types.Type{}
+		boxedResultTypes(s.producer, 0, map[*ssa.Function]bool{}, prod)
+		var miss2 []string
+		for name, t := range prod {
+			switch t.Underlying().(type) {
+			case *types.Map, *types.Slice:
+				if name == "[]byte" && s.noString {
+					continue
+				}
+				if !s.types[name] {
+					miss2 = append(miss2, name)
+				}
+			}
+		}
+		sort.Strings(miss2)
+		rc.Examined++
+		good2 := len(miss2) == 0
+		rc.add(nil, s.fn, "unhashable keys produced by "+s.producer.Name(), s.pos.Pos(), map[bool]string{true: "discharged", false: "violated"}[good2],
+			map[bool]string{true: "every unhashable dynamic type " + s.producer.Name() + " can return is boxed before it is used as a map key",
+				false: s.producer.Name() + " can also return " + strings.Join(miss2, ", ") + " (unhashable); such a key reaches the default branch and `ret[kv] = …` panics with `hash of unhashable type`"}[good2], true)
+	}
+}
+
+// inElseOfStringTest: ts lies in the else-arm (at any depth) of an if whose condition tests a key type
+// against STRING (`kt == thrift.STRING`, `keyType == STRING`, `kt == reflect.String`): string keys never reach it.
+func inElseOfStringTest(fd *ast.FuncDecl, ts *ast.TypeSwitchStmt) bool {
+	found := false
+	ast.Inspect(fd.Body, func(n ast.Node) bool {
+		is, ok := n.(*ast.IfStmt)
+		if !ok || is.Else == nil {
+			return true
+		}
+		if is.Else.Pos() <= ts.Pos() && ts.End() <= is.Else.End() {
+			c := types.ExprString(is.Cond)
+			if strings.Contains(c, "== thrift.STRING") || strings.Contains(c, "== STRING") || strings.Contains(c, "== reflect.String") {
+				found = true
+			}
+		}
+		return true
+	})
+	return found
+}
+
+// switchProducer: for `switch x := kv.(type)` with `kv, err := recv.M(…)`, the SSA function M.
+func switchProducer(w *World, info *types.Info, fd *ast.FuncDecl, ts *ast.TypeSwitchStmt) *ssa.Function {
+	var tag ast.Expr
+	switch a := ts.Assign.(type) {
+	case *ast.AssignStmt:
+		if len(a.Rhs) == 1 {
+			if ta, ok := a.Rhs[0].(*ast.TypeAssertExpr); ok {
+				tag = ta.X
+			}
+		}
+	case *ast.ExprStmt:
+		if ta, ok := a.X.(*ast.TypeAssertExpr); ok {
+			tag = ta.X
+		}
+	}
+	id, ok := tag.(*ast.Ident)
+	if !ok {
+		return nil
+	}
+	// the (last) assignment before the switch that defines the tag: `kv := f()` or `kv, err := f()`
+	var ce *ast.CallExpr
+	ast.Inspect(fd.Body, func(n ast.Node) bool {
+		as, ok := n.(*ast.AssignStmt)
+		if !ok || as.Pos() > ts.Pos() || len(as.Rhs) != 1 {
+			return true
+		}
+		for _, l := range as.Lhs {
+			if lid, ok := l.(*ast.Ident); ok && lid.Name == id.Name {
+				if c, ok := ast.Unparen(as.Rhs[0]).(*ast.CallExpr); ok {
+					ce = c
+				}
+			}
+		}
+		return true
+	})
+	if ce == nil {
+		return nil
+	}
+	var fobj *types.Func
+	switch f := ce.Fun.(type) {
+	case *ast.SelectorExpr:
+		fobj, _ = info.Uses[f.Sel].(*types.Func)
+	case *ast.Ident:
+		fobj, _ = info.Uses[f].(*types.Func)
+	}
+	if fobj == nil {
+		return nil
+	}
+	return w.ssaFunc(fobj)
+}
+
+// boxedResultTypes: the concrete types fn (transitively, through callees whose result it returns) boxes into
+// its first result of interface type.
+func boxedResultTypes(fn *ssa.Function, idx int, seen map[*ssa.Function]bool, out map[string]types.Type) {
+	if fn == nil || fn.Blocks == nil || seen[fn] || len(seen) > 60 {
+		return
+	}
+	seen[fn] = true
+	var walk func(v ssa.Value, d int)
+	walk = func(v ssa.Value, d int) {
+		if d > 8 {
+			return
+		}
+		switch x := v.(type) {
+		case *ssa.MakeInterface:
+			out[typeShort(x.X.Type())] = x.X.Type()
+		case *ssa.Phi:
+			for _, e := range x.Edges {
+				walk(e, d+1)
+			}
+		case *ssa.Call:
+			if cal := x.Call.StaticCallee(); cal != nil {
+				boxedResultTypes(cal, 0, seen, out)
+			}
+		case *ssa.Extract:
+			if c, ok := x.Tuple.(*ssa.Call); ok {
+				if cal := c.Call.StaticCallee(); cal != nil {
+					boxedResultTypes(cal, x.Index, seen, out)
+				}
+			}
+		case *ssa.ChangeInterface:
+			walk(x.X, d+1)
+		case *ssa.UnOp:
+			// a result cell: follow its stores
+			if al, ok := x.X.(*ssa.Alloc); ok && al.Referrers() != nil {
+				for _, r := range *al.Referrers() {
+					if st, ok := r.(*ssa.Store); ok {
+						walk(st.Val, d+1)
+					}
+				}
+			}
+		}
+	}
+	for _, b := range fn.Blocks {
+		if ret, ok := lastInstr(b).(*ssa.Return); ok && len(ret.Results) > idx {
+			if types.IsInterface(ret.Results[idx].Type()) {
+				walk(ret.Results[idx], 0)
+			}
+		}
 	}
 }
 
